@@ -938,9 +938,56 @@ def run_C16(pid, tier, seed, model_ok=True):
             if int(a) + int(b) > bl or sc + int(b) > nl:
                 divs.append((name, 0, 'lsm_bounded (hypothesis of the scan-loop theorems)', 'the real matcher answered (%s,%s) at scan %d with |old|=%d |new|=%d' % (a, b, sc, bl, nl), [], []))
                 break
+    # the packaging tools themselves (patch/src/main.rs, patch/src/bin/string_patch.rs), built from the current tree:
+    # the file `patch <base> <new> <out>` writes, and the bytes + hash `string_patch <base> <new>` prints, must install
+    # through the library to exactly the new binary
+    nbin = 0
+    tdir = os.path.join(CACHE, 'repo-target')
+    pb = sh('timeout 1500 cargo build --offline -p patch --bins 2>&1', cwd=REPO, env=dict(ENVV, CARGO_TARGET_DIR=tdir), timeout=1600)
+    exe_p, exe_s = os.path.join(tdir, 'debug', 'patch'), os.path.join(tdir, 'debug', 'string_patch')
+    if pb.returncode != 0 or not os.path.exists(exe_p) or not os.path.exists(exe_s):
+        extras.append('patch tools do not build: ' + pb.stdout[-400:])
+    else:
+        os.makedirs(work, exist_ok=True)
+        r3 = random.Random(seed + 77)
+        cases = []
+        for i in range(6 if tier == 'quick' else 40):
+            n = r3.choice([1, 40, 700, 4096, 9000])
+            base = bytes(r3.randrange(256) for _ in range(n))
+            new = bytes(r3.randrange(256) for _ in range(r3.randrange(0, 30))) + base[n // 3:] + bytes(r3.randrange(256) for _ in range(r3.randrange(0, 50)))
+            bp, np_, op_ = (os.path.join(work, 'tb%d.%s' % (i, x)) for x in ('b', 'n', 'o'))
+            open(bp, 'wb').write(base); open(np_, 'wb').write(new)
+            r = subprocess.run([exe_p, bp, np_, op_], capture_output=True, text=True)
+            if r.returncode != 0 or not os.path.exists(op_):
+                fails.append(('tool%d' % i, 0, 'C16: the patch tool failed on a (%d -> %d byte) pair: rc=%d %s' % (len(base), len(new), r.returncode, r.stderr[-200:]), [], []))
+                continue
+            cases.append(('tool%d' % i, base, new, open(op_, 'rb').read(), hashlib.sha256(new).hexdigest()))
+        alphabet = 'abcdefghij klmnop.,;XYZ0123456789'
+        for i in range(6 if tier == 'quick' else 40):
+            a_ = ''.join(r3.choice(alphabet) for _ in range(r3.randrange(1, 200)))
+            b_ = a_[:len(a_) // 2] + ''.join(r3.choice(alphabet) for _ in range(r3.randrange(0, 60))) + a_[len(a_) // 2 + r3.randrange(0, 5):]
+            r = subprocess.run([exe_s, a_, b_], capture_output=True, text=True)
+            m1 = re.search(r'^Patch: \[([0-9, ]*)\]$', r.stdout, flags=re.M)
+            m2 = re.search(r'^Hash \(new\): ([0-9a-f]+)$', r.stdout, flags=re.M)
+            if r.returncode != 0 or not m1 or not m2:
+                fails.append(('strtool%d' % i, 0, 'C16: string_patch failed or printed no patch/hash: rc=%d %s' % (r.returncode, (r.stdout + r.stderr)[-200:]), [], []))
+                continue
+            cases.append(('strtool%d' % i, a_.encode(), b_.encode(), bytes(int(x) for x in m1.group(1).split(',') if x.strip()), m2.group(1)))
+        for name, base, new, dl, h in cases:
+            lines = ['blob base %s' % base.hex(), 'blob dl %s' % dl.hex(), 'base @base', 'history ' + name, op_init(),
+                     'op update - %s @dl' % resp(True, (1, h, 'http://dl/1', None), None), 'op nextpath']
+            f = os.path.join(work, name + '.ops')
+            open(f, 'w').write('\n'.join(lines) + '\n')
+            im = subprocess.run([UVH, 'replay', f, os.path.join(work, name + '.w')], capture_output=True, text=True)
+            tr = [parse_line(l) for l in im.stdout.splitlines() if l.startswith('out=')]
+            nbin += 1
+            evals += 1
+            if len(tr) != 3 or tr[1]['out'] != '1' or tr[1]['arts'].get(1) != art_tag(new) or tr[2]['out'] != 'path:1':
+                fails.append((name, 1, 'C16: what the packaging tool produced for (%d -> %d bytes), with the hash it reports (%s), did not install back to the new binary: %s' % (
+                    len(base), len(new), h[:16], [t['out'] for t in tr] + [tr[1]['arts'].get(1) if len(tr) > 1 else None, art_tag(new)]), [l for l in lines if l.startswith('op ')], [l for l in lines if not l.startswith('op ') and not l.startswith('history ')]))
     shutil.rmtree(work, ignore_errors=True)
     return dict(evaluations=evals, distinct=len(distinct), samples=samples, divergences=divs, monitor_fail=fails,
-                rule='model scan loop with the real matcher as oracle == real BsdiffIterator matches (%d pairs, %d matcher answers all inside the buffers); ' % (nbs[0], nlsm) + '(base,new) pairs: identical / edited / unrelated / empty target / shared prefix or suffix / repeated blocks / grow / shrink at sizes crossing 4096, 8192 (and 65536, MiB in thorough); tool make_patch -> library update installs -> artifact == new; model: wf_matches on real matches, model writer == real bidiff bytes, model reader == new; model Reader state machine == real bipatch Reader under 6-7 buffer-size schedules on the genuine, a truncated and a bit-flipped stream; non-trivial = distinct (|base|,|new|,#matches)',
+                rule='the `patch` and `string_patch` binaries built from the current tree (%d runs: output file / printed bytes + printed hash install through the library to the new binary); ' % nbin + 'model scan loop with the real matcher as oracle == real BsdiffIterator matches (%d pairs, %d matcher answers all inside the buffers); ' % (nbs[0], nlsm) + '(base,new) pairs: identical / edited / unrelated / empty target / shared prefix or suffix / repeated blocks / grow / shrink at sizes crossing 4096, 8192 (and 65536, MiB in thorough); tool make_patch -> library update installs -> artifact == new; model: wf_matches on real matches, model writer == real bidiff bytes, model reader == new; model Reader state machine == real bipatch Reader under 6-7 buffer-size schedules on the genuine, a truncated and a bit-flipped stream; non-trivial = distinct (|base|,|new|,#matches)',
                 dist={'pairs': evals, 'reader_buffer_schedules': nchunk, 'pairs_installed_over_leftovers_of_a_longer_rejected_attempt': nleft[0]}, extras=extras, traces=evals)
 
 
@@ -1001,7 +1048,7 @@ def run_C11(pid, tier, seed, model_ok=True):
                         tail = ['op nextnum', 'op nextpath', 'op curnum', 'op kill', al.init, 'op nextnum', 'op start', 'op curnum']
                         hs.append((name, lines + sched + tail))
                         meta[name] = (len(lines), upd[uk], oops, order)
-        header = ctx.header()
+        header = [h for h in ctx.header() if h != 'dls on']   # a scheduled update writes downloads/ outside the sequential step function
         model, impl, extras = run_both(header, hs, work, impl_only=not model_ok)
         opsof = dict(hs)
         divs, fails = [], []
